@@ -401,8 +401,9 @@ example : reprRem 10 .halfAway coarseNone 2 ⟨7, 0⟩ ⟨2, 0⟩ = .ok (⟨-1, 
   decide
 
 /-! ### the clause "the FBig operator vs the Context method at the same precision" — where it holds for the code as it is.
-    Outside the stated regions the code disagrees (three recorded findings, `corpus/C15/float_ctx_vs_operator.case`,
-    `float_div_long_dividend.case`); the regions below are exactly the complements of the finding predicates. -/
+    `+`/`-`: everywhere (since fix 164990d).  `*`, `/`: outside the stated regions the code disagrees (two recorded findings,
+    `corpus/C15/float_ctx_vs_operator.case`, `float_div_long_dividend.case`); those regions are exactly the complements
+    of the finding predicates. -/
 
 /-- `*`: `Context::mul` = the operator forms whenever no operand is longer than `2p` digits (or the precision is unlimited) -/
 theorem operator_eq_context_mul (B : Nat) (m : Mode) (c : Coarse) (p : Nat) (lhs rhs : FRepr)
@@ -415,20 +416,33 @@ theorem operator_eq_context_mul (B : Nat) (m : Mode) (c : Coarse) (p : Nat) (lhs
     have h2 : ¬ (p ≠ 0 ∧ rhs.digits B > 2 * p) := by omega
     simp [h1, h2]
 
-/-- `+`, `-`: the operator forms = `Context::add/sub` whenever both operands fit the precision (C03's theorem, restated
-    for the definition the driver executes) -/
+/-- `+`, `-`: the operator forms = `Context::add/sub` for ALL operands (C03's theorem `opAddSub_eq_ctx_all`, restated for the
+    definition the driver executes).  Until 164990d this carried `lhs.digits ≤ p`, `rhs.digits ≤ p`: the zero-operand
+    shortcut of add_val_val/… returned the other operand unrounded; the repaired code rounds it, the hypotheses are gone. -/
 theorem operator_eq_context_addsub (B : Nat) (m : Mode) (c : Coarse) (dub : Int → Nat) (p : Nat) (lhs rhs : FRepr)
-    (rs : Int) (hrs : rs = 1 ∨ rs = -1) (hld : lhs.digits B ≤ p) (hrd : rhs.digits B ≤ p) :
+    (rs : Int) (hrs : rs = 1 ∨ rs = -1) :
     Model.Forms.opAddSub B m c dub p lhs rhs rs = (ctxAddSub B m c dub p lhs rhs rs).1 :=
-  opAddSub_eq_ctx B m c dub p lhs rhs rs hrs hld hrd
+  opAddSub_eq_ctx_all B m c dub p lhs rhs rs hrs
 
-/-- `+`, `-` with both operands non-zero: the operator forms = `Context::add/sub` for ALL operand lengths (only the
-    zero-operand shortcut differs) -/
+/-- `+`, `-` with both operands non-zero: the same, with no condition on the sign factor `rs` either -/
 theorem operator_eq_context_addsub_nonzero (B : Nat) (m : Mode) (c : Coarse) (dub : Int → Nat) (p : Nat) (lhs rhs : FRepr)
     (rs : Int) (hl : lhs.isZero = false) (hr : rhs.isZero = false) :
     Model.Forms.opAddSub B m c dub p lhs rhs rs = (ctxAddSub B m c dub p lhs rhs rs).1 := by
   unfold Model.Forms.opAddSub
   simp [hl, hr]
+
+/-- the whole operation table: for `+` and `-` the operator forms and the `Context` method form answer alike on every pair
+    of finite operands (the clause "operator vs Context method at the same precision", add/sub part, without exception) -/
+theorem operator_eq_context_addsub_table (B : Nat) (m : Mode) (e : Est) (x y : FBigM) :
+    opBin B m e "add" x y = ctxBin B m e "add" x y ∧ opBin B m e "sub" x y = ctxBin B m e "sub" x y := by
+  constructor
+  · show some _ = some _
+    rw [operator_eq_context_addsub B m coarseNone e.dub _ x.repr y.repr 1 (Or.inl rfl)]
+  · show some _ = some _
+    rw [operator_eq_context_addsub B m coarseNone e.dub _ x.repr y.repr (-1) (Or.inr rfl)]
+
+-- the witness of the repaired defect (`0 (p=2) + 74565 (unlimited)`), now 75e3 in the operator forms as in `Context::add`
+example : Model.Forms.opAddSub 10 .halfAway coarseNone (digitsI 10) 2 ⟨0, 0⟩ ⟨74565, 0⟩ 1 = ⟨75, 3⟩ := by decide
 
 /-- `/`: the operator forms = `Context::div` whenever the dividend is not pre-shrunk and passes `repr_div`'s assertion -/
 theorem operator_eq_context_div (B : Nat) (m : Mode) (c : Coarse) (dub dlb : Int → Nat) (p : Nat) (lhs rhs : FRepr)
@@ -443,6 +457,28 @@ theorem operator_eq_context_div (B : Nat) (m : Mode) (c : Coarse) (dub dlb : Int
 /-- `%`: `Context::rem` and the operator forms are the same call -/
 theorem operator_eq_context_rem (B : Nat) (m : Mode) (e : Est) (x y : FBigM) :
     opBin B m e "rem" x y = ctxBin B m e "rem" x y := rfl
+
+/-- the operation table, `*`: the operator forms and `Context::max(..).mul` answer alike on every pair of finite operands
+    none of which is longer than twice the result precision (the complement is the recorded pre-shrink finding) -/
+theorem operator_eq_context_mul_table (B : Nat) (m : Mode) (e : Est) (x y : FBigM)
+    (h : ctxMax x.prec y.prec = 0 ∨
+      (x.repr.digits B ≤ 2 * ctxMax x.prec y.prec ∧ y.repr.digits B ≤ 2 * ctxMax x.prec y.prec)) :
+    opBin B m e "mul" x y = ctxBin B m e "mul" x y := by
+  show some _ = some _
+  rw [operator_eq_context_mul B m coarseNone _ x.repr y.repr h]
+
+/-- the operation table, `/`: the same for a dividend that `Context::div` does not pre-shrink and `repr_div` accepts -/
+theorem operator_eq_context_div_table (B : Nat) (m : Mode) (e : Est) (x y : FBigM)
+    (hp : ctxMax x.prec y.prec ≠ 0)
+    (hno : ¬ (¬ x.repr.isZero ∧ e.dub x.repr.signif > e.dlb y.repr.signif + ctxMax x.prec y.prec))
+    (hlen : x.repr.digits B ≤ ctxMax x.prec y.prec + y.repr.digits B) :
+    opBin B m e "div" x y = ctxBin B m e "div" x y := by
+  show some _ = some _
+  rw [operator_eq_context_div B m coarseNone e.dub e.dlb _ x.repr y.repr hp hno hlen]
+  cases ctxDiv B m coarseNone e.dub e.dlb (ctxMax x.prec y.prec) x.repr y.repr <;> rfl
+
+example : ctxMax (FBigM.mk ⟨15, 0⟩ 0).prec (FBigM.mk ⟨1, 0⟩ 1).prec = 1 ∧ (⟨15, 0⟩ : FRepr).digits 10 ≤ 2 * 1 ∧
+    (⟨1, 0⟩ : FRepr).digits 10 ≤ 2 * 1 := by decide
 
 example : (⟨15, 0⟩ : FRepr).digits 10 ≤ 2 * 1 ∧ ctxMul false 10 .halfAway coarseNone 1 ⟨15, 0⟩ ⟨1, 0⟩ = (⟨2, 1⟩, some .AddOne) := by
   decide
